@@ -4,13 +4,16 @@
    (urwid/widget/*.py, urwid/canvas.py as they are NOW).  A canvas is abstracted to what the size
    contract speaks about: cols(), rows(), the cursor, and two flags
      rect    - every content row is exactly cols() wide (lost when CanvasCombine stacks canvases
-               of different widths; nothing repairs it afterwards)
-     trimmed - (ghost, never sent over the wire) some ancestor operation cut rows/columns away
-               while the coordinates were only translated, so the cursor may have left the canvas.
+               of different widths; nothing repairs it afterwards).  Conservative: never compared
+               with the implementation, the oracle measures the real rows.
 
-   Deviation from the code, made explicit: a widget asked for a size with a component <= 0 answers
-   [Err EStarved] (the harness flags the same situation on the implementation with a spy on
-   CanvasCache.fetch); what a real leaf does at such a size is not part of its contract.
+   Two deviations from the code, made explicit.  They mark situations in which the property is
+   already lost (or meaningless) below the widget under consideration, and the harness flags exactly
+   the same situations on the implementation with a spy around every render()/rows()/pack():
+     EStarved - a widget is asked for a size with a component <= 0 (its container had no room);
+                what a real leaf does at such a size is not part of its contract;
+     ECut     - a widget returns a canvas whose cursor lies outside it (canvas.py trims rows and
+                columns but only translates the cursor coordinates).
 
    Leaves are tables of what the real leaf reports (rows / pack / render dims per width and focus),
    measured by the harness; their contract is a hypothesis of the theorems (leaf_ok). *)
@@ -19,14 +22,14 @@ Import ListNotations.
 Open Scope Z_scope.
 
 (* ---------- results ---------- *)
-Inductive err := EIndex | EValue | EType | EWidget | ECanvas | EOther | EZeroDiv | ENoData | EStarved.
+Inductive err := EIndex | EValue | EType | EWidget | ECanvas | EOther | EZeroDiv | ENoData | EStarved | ECut.
 Definition err_code (e : err) : Z :=
   match e with EIndex => 1 | EValue => 2 | EType => 3 | EWidget => 4 | ECanvas => 5 | EOther => 10
-             | EZeroDiv => 11 | ENoData => 12 | EStarved => 13 end.
+             | EZeroDiv => 11 | ENoData => 12 | EStarved => 13 | ECut => 14 end.
 Definition err_of_code (z : Z) : err :=
   if z =? 1 then EIndex else if z =? 2 then EValue else if z =? 3 then EType else if z =? 4 then EWidget
   else if z =? 5 then ECanvas else if z =? 11 then EZeroDiv else if z =? 12 then ENoData
-  else if z =? 13 then EStarved else EOther.
+  else if z =? 13 then EStarved else if z =? 14 then ECut else EOther.
 
 Inductive res (A : Type) := Ok (a : A) | Err (e : err).
 Arguments Ok {A} a.
@@ -45,7 +48,7 @@ Fixpoint mapM {A B} (f : A -> res B) (l : list A) : res (list B) :=
 Record sizing := mkS { s_box : bool; s_flow : bool; s_fixed : bool }.
 Inductive size := SFixed | SFlow (c : Z) | SBox (c r : Z).
 
-Record canv := mkC { cc : Z; cr : Z; cur : option (Z * Z); rect : bool; trimmed : bool }.
+Record canv := mkC { cc : Z; cr : Z; cur : option (Z * Z); rect : bool }.
 
 Definition degenerate (sz : size) : bool :=
   match sz with SFixed => false | SFlow c => c <=? 0 | SBox c r => (c <=? 0) || (r <=? 0) end.
@@ -78,8 +81,14 @@ Definition default_pack (sz : sizing) (rows : Z -> bool -> res Z) (s : size) (f 
    validate_size after *)
 Definition wrap_rows (raw : Z -> bool -> res Z) (c : Z) (f : bool) : res Z :=
   if c <=? 0 then Err EStarved else raw c f.
+Definition cursor_outside (cv : canv) : bool :=
+  match cur cv with
+  | Some (x, y) => negb ((0 <=? x) && (x <? cc cv) && (0 <=? y) && (y <? cr cv))
+  | None => false
+  end.
+Definition check_cut (cv : canv) : res canv := if cursor_outside cv then Err ECut else Ok cv.
 Definition wrap_render (raw : size -> bool -> res canv) (sz : size) (f : bool) : res canv :=
-  if degenerate sz then Err EStarved else let* cv := raw sz f in validate sz cv.
+  if degenerate sz then Err EStarved else let* cv := raw sz f in let* cv1 := validate sz cv in check_cut cv1.
 
 Definition mk_node (sz : sizing) (rows : Z -> bool -> res Z)
            (pack_fixed : bool -> res (Z * Z)) (render : size -> bool -> res canv) : sem :=
@@ -93,26 +102,26 @@ Definition mk_node (sz : sizing) (rows : Z -> bool -> res Z)
 Definition shift_cur (c : option (Z * Z)) (dx dy : Z) : option (Z * Z) :=
   match c with Some (x, y) => Some (x + dx, y + dy) | None => None end.
 
-Definition blank (c r : Z) : canv := mkC c r None true false.   (* SolidCanvas *)
+Definition blank (c r : Z) : canv := mkC c r None true.   (* SolidCanvas *)
 
 (* CompositeCanvas.pad_trim_left_right; shards_trim_sides raises ValueError when cols <= 0 *)
 Definition pad_trim_lr (cv : canv) (left right : Z) : res canv :=
   if (left <? 0) || (right <? 0) then
     let cols := cc cv - Z.max 0 (- left) - Z.max 0 (- right) in
     if cols <=? 0 then Err EValue
-    else Ok (mkC (cols + Z.max 0 left + Z.max 0 right) (cr cv) (shift_cur (cur cv) left 0) (rect cv) true)
-  else Ok (mkC (cc cv + left + right) (cr cv) (shift_cur (cur cv) left 0) (rect cv) (trimmed cv)).
+    else Ok (mkC (cols + Z.max 0 left + Z.max 0 right) (cr cv) (shift_cur (cur cv) left 0) (rect cv))
+  else Ok (mkC (cc cv + left + right) (cr cv) (shift_cur (cur cv) left 0) (rect cv)).
 
 (* CompositeCanvas.trim(top, count) *)
 Definition trim (cv : canv) (top : Z) (count : option Z) : res canv :=
   if top <? 0 then Err EValue
   else if cr cv <=? top then Err EValue
   else match count with
-       | None => Ok (mkC (cc cv) (cr cv - top) (shift_cur (cur cv) 0 (- top)) (rect cv) true)
+       | None => Ok (mkC (cc cv) (cr cv - top) (shift_cur (cur cv) 0 (- top)) (rect cv))
        | Some n =>
-           if n =? 0 then Ok (mkC 0 0 (shift_cur (cur cv) 0 (- top)) (rect cv) true)
+           if n =? 0 then Ok (mkC 0 0 (shift_cur (cur cv) 0 (- top)) (rect cv))
            else if n <? 0 then Err EValue
-           else Ok (mkC (cc cv) (Z.min n (cr cv - top)) (shift_cur (cur cv) 0 (- top)) (rect cv) true)
+           else Ok (mkC (cc cv) (Z.min n (cr cv - top)) (shift_cur (cur cv) 0 (- top)) (rect cv))
        end.
 
 (* CompositeCanvas.pad_trim_top_bottom *)
@@ -120,8 +129,8 @@ Definition pad_trim_tb (cv : canv) (top bottom : Z) : res canv :=
   let* cv1 := (if (top <? 0) || (bottom <? 0)
                then trim cv (Z.max 0 (- top)) (Some (cr cv - Z.max 0 (- top) - Z.max 0 (- bottom)))
                else Ok cv) in
-  let cv2 := if 0 <? top then mkC (cc cv1) (cr cv1 + top) (shift_cur (cur cv1) 0 top) (rect cv1) (trimmed cv1) else cv1 in
-  Ok (if 0 <? bottom then mkC (cc cv2) (cr cv2 + bottom) (cur cv2) (rect cv2) (trimmed cv2) else cv2).
+  let cv2 := if 0 <? top then mkC (cc cv1) (cr cv1 + top) (shift_cur (cur cv1) 0 top) (rect cv1) else cv1 in
+  Ok (if 0 <? bottom then mkC (cc cv2) (cr cv2 + bottom) (cur cv2) (rect cv2) else cv2).
 
 Definition later_cur (a b : option (Z * Z)) : option (Z * Z) :=
   match b with Some _ => b | None => a end.
@@ -133,12 +142,12 @@ Fixpoint combine_from (w0 row : Z) (l : list canv) (acc : canv) : canv :=
   | c :: r =>
       combine_from w0 (row + cr c) r
         (mkC w0 (cr acc + cr c) (later_cur (cur acc) (shift_cur (cur c) 0 row))
-             (rect acc && rect c && (cc c =? w0)) (trimmed acc || trimmed c))
+             (rect acc && rect c && (cc c =? w0)))
   end.
 Definition canvas_combine (l : list canv) : canv :=
   match l with
-  | [] => mkC 0 0 None true false
-  | c :: _ => combine_from (cc c) 0 l (mkC (cc c) 0 None true false)
+  | [] => mkC 0 0 None true
+  | c :: _ => combine_from (cc c) 0 l (mkC (cc c) 0 None true)
   end.
 
 (* CanvasJoin: each canvas padded/trimmed to its column width and padded to the tallest *)
@@ -152,10 +161,10 @@ Fixpoint join_from (maxrow col : Z) (l : list (canv * Z)) (acc : canv) : res can
       let* c2 := (if cr c1 <? maxrow then pad_trim_tb c1 0 (maxrow - cr c1) else Ok c1) in
       join_from maxrow (col + cc c2) r
         (mkC (cc acc + cc c2) maxrow (later_cur (cur acc) (shift_cur (cur c2) col 0))
-             (rect acc && rect c2) (trimmed acc || trimmed c2))
+             (rect acc && rect c2))
   end.
 Definition canvas_join (l : list (canv * Z)) : res canv :=
-  let m := maxrows l in join_from m 0 l (mkC 0 m None true false).
+  let m := maxrows l in join_from m 0 l (mkC 0 m None true).
 
 (* CanvasOverlay / CompositeCanvas.overlay(other, left, top).  The rows above/below keep the bottom
    canvas's width; the middle band is left part + top canvas + right part. *)
@@ -171,8 +180,7 @@ Definition canvas_overlay (top_c bottom_c : canv) (left top : Z) : res canv :=
     let mid := if (negb (left =? 0)) || (negb (right =? 0)) then Z.max 0 left + cc top_c + Z.max 0 right else cc top_c in
     Ok (mkC (if 0 <? top then cc bottom_c else mid) (top + cr top_c + bottom)
             (later_cur (cur bottom_c) (shift_cur (cur top_c) left top))
-            (rect bottom_c && rect top_c && ((mid =? cc bottom_c) || ((top =? 0) && (bottom =? 0))))
-            (trimmed bottom_c || trimmed top_c)).
+            (rect bottom_c && rect top_c && ((mid =? cc bottom_c) || ((top =? 0) && (bottom =? 0))))).
 
 (* ---------- arithmetic helpers ---------- *)
 (* util.int_scale: num // dem with dem = (val_range-1)*2 > 0; Python floor division = Z.div *)
@@ -196,11 +204,16 @@ Inductive whk := KGiven | KPack | KWeight.
 Record flow_entry := mkFE { fe_rows : res Z; fe_pack : res (Z * Z); fe_render : res canv }.
 Record leafdata := mkLeaf {
   l_sizing : sizing;
-  l_flow : bool -> list flow_entry;      (* index = width *)
+  l_flow : bool -> Z -> res flow_entry;   (* focus, width: rows((c,)), pack((c,)), render((c,)) *)
   l_fixed_pack : bool -> res (Z * Z);
   l_fixed_render : bool -> res canv;
-  l_box : list (Z * Z * bool * res canv)  (* the box renders that were asked of this leaf: (c, r, focus) -> outcome *)
+  l_box : Z -> Z -> bool -> res canv      (* render((c, r), focus) *)
 }.
+
+(* tables sent over the wire become functions; a question outside the table is ENoData *)
+Definition table_fn (t0 t1 : list flow_entry) (f : bool) (c : Z) : res flow_entry :=
+  if c <? 0 then Err ENoData
+  else match nth_error (if f then t1 else t0) (Z.to_nat c) with Some e => Ok e | None => Err ENoData end.
 
 Fixpoint box_lookup (l : list (Z * Z * bool * res canv)) (c r : Z) (f : bool) : res canv :=
   match l with
@@ -208,23 +221,19 @@ Fixpoint box_lookup (l : list (Z * Z * bool * res canv)) (c r : Z) (f : bool) : 
   | (c1, r1, f1, v) :: t => if (c1 =? c) && (r1 =? r) && Bool.eqb f1 f then v else box_lookup t c r f
   end.
 
-Definition flow_entry_at (d : leafdata) (c : Z) (f : bool) : res flow_entry :=
-  if c <? 0 then Err ENoData
-  else match nth_error (l_flow d f) (Z.to_nat c) with Some e => Ok e | None => Err ENoData end.
-
 Definition leaf_sem (d : leafdata) : sem :=
   mkSem (l_sizing d)
-    (fun c f => if c <=? 0 then Err EStarved else let* e := flow_entry_at d c f in fe_rows e)
+    (fun c f => if c <=? 0 then Err EStarved else let* e := l_flow d f c in fe_rows e)
     (fun s f => match s with
                 | SFixed => l_fixed_pack d f
-                | SFlow c => if c <=? 0 then Err EStarved else let* e := flow_entry_at d c f in fe_pack e
+                | SFlow c => if c <=? 0 then Err EStarved else let* e := l_flow d f c in fe_pack e
                 | SBox c r => if degenerate s then Err EStarved else Ok (c, r)
                 end)
     (fun s f => if degenerate s then Err EStarved else
                 match s with
                 | SFixed => l_fixed_render d f
-                | SFlow c => let* e := flow_entry_at d c f in fe_render e
-                | SBox c r => box_lookup (l_box d) c r f
+                | SFlow c => let* e := l_flow d f c in fe_render e
+                | SBox c r => l_box d c r f
                 end).
 
 (* ============================================================ decorations ============================================================ *)
@@ -1254,7 +1263,9 @@ Fixpoint wf_b (w : widget) : bool :=
   | WPile items fp =>
       let ps := pile_sizing (denote_p items) in wf_p items ps && (0 <=? fp)
   | WColumns items d mw fp =>
-      let cs := cols_sizing (denote_c items) in wf_c items cs && (0 <=? d) && (1 <=? mw) && (0 <=? fp)
+      let cs := cols_sizing (denote_c items) in
+      wf_c items cs && (0 <=? d) && (1 <=? mw) && (0 <=? fp)
+      && (negb (s_fixed cs) || existsb (fun it => negb (ci_box it)) (denote_c items))
   | WFrame body hd ft fpart =>
       wf_b body && s_box (m_sizing (denote body)) && wf_o hd && wf_o ft
   | WOverlay t b p =>
@@ -1298,7 +1309,7 @@ Definition p_rescanv : P (res canv) :=
   do t <- pz;
   if t =? 0 then
     (do c <- pz; do r <- pz; do cf <- pz; do x <- pz; do y <- pz; do rc <- pz;
-     pret (Ok (mkC c r (if cf =? 0 then None else Some (x, y)) (negb (rc =? 0)) false)))
+     pret (Ok (mkC c r (if cf =? 0 then None else Some (x, y)) (negb (rc =? 0)))))
   else (do v <- pz; pret (Err (err_of_code v))).
 Definition p_entry : P flow_entry :=
   do a <- p_resz; do b <- p_respair; do c <- p_rescanv; pret (mkFE a b c).
@@ -1311,7 +1322,7 @@ Definition p_leaf : P leafdata :=
   do t1 <- p_table; do pk1 <- p_respair; do rd1 <- p_rescanv;
   do nb <- pz;
   do bx <- prep (Z.to_nat nb) (do c <- pz; do r <- pz; do f <- pz; do v <- p_rescanv; pret (c, r, negb (f =? 0), v));
-  pret (mkLeaf s (fun f => if f then t1 else t0) (fun f => if f then pk1 else pk0) (fun f => if f then rd1 else rd0) bx).
+  pret (mkLeaf s (table_fn t0 t1) (fun f => if f then pk1 else pk0) (fun f => if f then rd1 else rd0) (box_lookup bx)).
 Definition p_oz : P (option Z) := do t <- pz; do v <- pz; pret (if t =? 0 then None else Some v).
 Definition p_wtype : P wtype :=
   do k <- pz; do v <- pz;
